@@ -663,6 +663,17 @@ class Fn:
                     # moves / unsize coercions of `&mut` references keep pointing at the same storage
                     if is_mut_ref_ty(self.locals[s["place"]["l"]]) and ty_has_mut_ref(self.locals[rv["x"]["l"]]):
                         g[rv["x"]["l"]].add(s["place"]["l"])
+                if rv["k"] == "use" and rv["x"].get("k") in ("copy", "move") and not s["place"]["p"] and len(rv["x"]["p"]) == 1 and \
+                        isinstance(rv["x"]["p"][0], dict) and "f" in rv["x"]["p"][0] and is_mut_ref_ty(self.locals[s["place"]["l"]]):
+                    # a `&mut` unpacked from a tuple / closure environment it was packed into (`call_once(f, (out,))`
+                    # with the closure folded in) still points at the same storage
+                    ds = def_sites(self, rv["x"]["l"])
+                    if len(ds) == 1 and ds[0][1] == "assign" and ds[0][2]["rv"]["k"] == "agg" and not ds[0][2]["place"]["p"]:
+                        ops = ds[0][2]["rv"].get("ops") or []
+                        fi = rv["x"]["p"][0]["f"]
+                        if isinstance(fi, int) and fi < len(ops) and isinstance(ops[fi], dict) and ops[fi].get("k") in ("copy", "move") \
+                                and not ops[fi].get("p") and is_mut_ref_ty(self.locals[ops[fi]["l"]]):
+                            g[ops[fi]["l"]].add(s["place"]["l"])
             # results of calls returning `&mut` (deref_mut, index_mut, as_mut_slice, split_at_mut..):
             for c in self.calls():
                 dty = self.locals[c.dest["l"]]
